@@ -30,6 +30,14 @@ NEEDS={
  "C25-1":("C25","an RBS overload with a trailing positional but no rest parameter ((?Integer, Integer)): the trailing parameter is dropped"),
  "C26-1":("C26","an mrbc binding whose typed GET_*_ARG indexes are sparse (an argument read through untyped GET_ARG(n) in between)"),
  "C27-1":("C27","a class nested in a class, wrapped in two modules, whose unqualified superclass/mixin lives in the middle namespace (resolution jumps from M1::M2::Outer to M1)"),
+ "C01-2":("C01","a source file whose last two bytes contain ill-formed UTF-8 (Latin-1 text, or a byte prefix cut inside a multi-byte character); the reader advances by the canonical length of U+FFFD and slices past the end, outside the recover barrier"),
+ "C03-2":("C03","a non-ASCII decimal digit (fullwidth, Arabic-Indic, Devanagari) at a token start or after `1.`: lexDigit rejects it without consuming it and emits Float tokens for ever"),
+ "C05-2":("C05","two same-named classes in two different user modules holding a method with identical name, static-ness and signature text, listed by --llm-nav --target=<Class> or --llm-define --class=<Class> (sort leaves their order to map iteration)"),
+ "C06-2":("C06","a comment line with an empty body (`#` directly followed by the newline) inserted between statements: the comment swallows the following source line and one row is lost"),
+ "C09-2":("C09","an array grown by push/<< with a second nested array whose element types the first nested array lacks (`a = [[1]]; a << [\"x\"]`)"),
+ "C10-2":("C10","a union containing a typed Array, a Hash with entries, or two different user classes, tested with is_a? and read in the else / a later elsif branch"),
+ "C11-2":("C11","a fragment containing its own `case` inserted inside a `when` branch of a host `case` that has an `else` narrowing a union-typed subject (branch-type list shared by the singleton Case evaluator)"),
+ "C12-2":("C12","a subclass of a configured class, a method below `private`, and an index assignment whose receiver is the bare name of an inherited method returning Array/Hash (`chars[0] = 1`). Detected at base 0bacf49; since fix 3e3bf5b (the bare name yields a copy) the change no longer reaches the table"),
 }
 for d in sorted(glob.glob('/verif/seeded/*/')):
     name=os.path.basename(d.rstrip('/'))
